@@ -3,6 +3,7 @@
 (* framing / truncation / extension of each, against the class edges for prefix-freeness; all     *)
 (* short vectors and optionals.                                                                   *)
 EXTENDS CompactSize
+CONSTANT TopDigits     \* values whose two most significant digits are in TopDigits (Digit: all 65 536 values)
 VARIABLE v
 
 MaxVDef == << 0, 0, 0, 2, 0, 0, 0, 0 >>          \* 2 * B^3
@@ -12,7 +13,7 @@ Edges == { Pad(<< 0 >>), Pad(<< TagW2 - 1 >>), Pad(<< TagW2 >>), Pad(<< B - 1 >>
            Pad(<< 0, 0, 1 >>), Pad(<< B - 1, B - 1, B - 1, B - 1 >>), Pad(<< 0, 0, 0, 0, 1 >>),
            MaxV, Pad(<< 1, 0, 0, 2 >>), Pad(<< B - 1, B - 1, B - 1, 1 >>), Top }
 
-Init == v \in Value
+Init == \E lo \in [1..6 -> Digit], hi \in [7..8 -> TopDigits] : v = [i \in 1..W |-> IF i <= 6 THEN lo[i] ELSE hi[i]]
 Next == UNCHANGED v
 Spec == Init /\ [][Next]_v
 
